@@ -16,7 +16,8 @@ VERIF = os.path.dirname(os.path.dirname(os.path.abspath(__file__)))
 REPO = os.environ.get("VERIF_REPO", "/repo")
 COQ = os.path.join(VERIF, "coq")
 BUILD = os.path.join(VERIF, "build")
-EVID = os.path.join(VERIF, "evidence")
+# evidence goes to /verif/evidence unless a development run against a scratch tree redirects it
+EVID = os.environ.get("VERIF_EVID") or os.path.join(VERIF, "evidence")
 REPLAYS = os.path.join(VERIF, "replays")
 sys.path.insert(0, os.path.join(VERIF, "tools"))
 
